@@ -255,44 +255,99 @@ func ruleRegistryKey(c *Ctx) {
 			c.Oblige("T.key", false, fn.Decl.Pos(), fn.Name(), "registryKey{typ, tag}", "no registryKey value found: undecided", nil)
 		}
 	}
-	// argument threading of the Plenc methods
+	// argument threading of the Plenc methods, on SSA and by parameter position:
+	// P<i> is the method's i-th parameter (receiver = 0), "" the empty tag, reg
+	// the receiver's own registry; a method may also hand on to its more general
+	// sibling with the same arguments
+	type alt struct {
+		callee string
+		args   []string
+	}
 	type want struct {
-		recv, name, callee string
-		args               []string // parameter names or literal "\"\"" / "&p.codecRegistry"
+		recv, name string
+		alts       []alt
 	}
 	for _, w := range []want{
-		{"Plenc", "RegisterCodec", "Store", []string{"typ", `""`, "c"}},
-		{"Plenc", "RegisterCodecWithTag", "Store", []string{"typ", "tag", "c"}},
-		{"Plenc", "CodecForType", "CodecForTypeRegistry", []string{"&p.codecRegistry", "typ", `""`}},
-		{"Plenc", "CodecForTypeWithTag", "CodecForTypeRegistry", []string{"&p.codecRegistry", "typ", "tag"}},
-		{"Plenc", "codecForBasicType", "Load", []string{"typ", "tag"}},
+		{"Plenc", "RegisterCodec", []alt{{"Store", []string{"P1", `""`, "P2"}}, {"RegisterCodecWithTag", []string{"P1", `""`, "P2"}}}},
+		{"Plenc", "RegisterCodecWithTag", []alt{{"Store", []string{"P1", "P2", "P3"}}}},
+		{"Plenc", "CodecForType", []alt{{"CodecForTypeRegistry", []string{"reg", "P1", `""`}}, {"CodecForTypeWithTag", []string{"P1", `""`}}}},
+		{"Plenc", "CodecForTypeWithTag", []alt{{"CodecForTypeRegistry", []string{"reg", "P1", "P2"}}}},
+		{"Plenc", "codecForBasicType", []alt{{"Load", []string{"P1", "P2"}}}},
 	} {
 		fn := p.findFunc("plenc", w.recv, w.name)
-		if fn == nil {
+		sf := p.ssaFunc("plenc." + w.recv + "." + w.name)
+		if fn == nil || sf == nil {
 			c.Oblige("T.key", false, token.NoPos, "plenc."+w.recv+"."+w.name, w.name, "not found", nil)
 			continue
 		}
-		ok := false
+		matches := func(v ssa.Value, pat string) bool {
+			switch {
+			case pat == `""`:
+				k, isK := v.(*ssa.Const)
+				return isK && k.Value != nil && k.Value.Kind() == constant.String && constant.StringVal(k.Value) == ""
+			case pat == "reg":
+				if mi, isMI := v.(*ssa.MakeInterface); isMI {
+					v = mi.X
+				}
+				fa, isFA := v.(*ssa.FieldAddr)
+				return isFA && fieldName(fa) == "codecRegistry" && fa.X == ssa.Value(sf.Params[0])
+			case strings.HasPrefix(pat, "P"):
+				n := int(pat[1] - '0')
+				return n < len(sf.Params) && v == ssa.Value(sf.Params[n])
+			}
+			return false
+		}
 		got := ""
-		ast.Inspect(fn.Decl.Body, func(n ast.Node) bool {
-			call, isCall := n.(*ast.CallExpr)
-			if !isCall {
-				return true
+		ncalls, nmatch := 0, 0
+		for _, b := range sf.Blocks {
+			for _, in := range b.Instrs {
+				call, isCall := in.(*ssa.Call)
+				if !isCall {
+					continue
+				}
+				cc := call.Common()
+				cname, args := "", cc.Args
+				if cc.IsInvoke() {
+					cname = cc.Method.Name()
+				} else if cal := cc.StaticCallee(); cal != nil {
+					cname = cal.Name()
+					if cal.Signature.Recv() != nil && len(args) > 0 {
+						args = args[1:]
+					}
+				}
+				// every call to one of the listed callees must be the documented one:
+				// a second lookup under another key, a second store, is a different key
+				named, matched := false, false
+				for _, a := range w.alts {
+					if a.callee != cname {
+						continue
+					}
+					named = true
+					if len(args) != len(a.args) {
+						continue
+					}
+					all := true
+					for k2, pat := range a.args {
+						if !matches(args[k2], pat) {
+							all = false
+						}
+					}
+					if all {
+						matched = true
+					}
+				}
+				if named {
+					got = cname
+					ncalls++
+					if matched {
+						nmatch++
+					}
+				}
 			}
-			sel, isSel := call.Fun.(*ast.SelectorExpr)
-			if !isSel || sel.Sel.Name != w.callee {
-				return true
-			}
-			var as []string
-			for _, a := range call.Args {
-				as = append(as, p.str(a))
-			}
-			got = strings.Join(as, ", ")
-			ok = got == strings.Join(w.args, ", ")
-			return true
-		})
-		c.Oblige("T.key", ok, fn.Decl.Pos(), fn.Name(), w.name+" -> "+w.callee+"("+strings.Join(w.args, ", ")+")",
-			"registrations and lookups must use exactly (type, tag): found arguments ("+got+")", nil)
+		}
+		ok := ncalls > 0 && ncalls == nmatch
+		c.Oblige("T.key", ok, fn.Decl.Pos(), fn.Name(), w.name+" -> "+w.alts[0].callee+"("+strings.Join(w.alts[0].args, ", ")+")",
+			"registrations and lookups must use exactly (type, tag): the call to "+got+" does not hand on the method's own parameters in their roles", nil)
 	}
 	c.Floor("T.key", 8)
 }
